@@ -16,16 +16,20 @@ Correspondence (real code vs compiled model driver, every observable the propert
             non-numeric tokens, no-data outside the type: error class compared and differences REPORTED in the evidence
             (`malformed_header_differences`) - the treatment of text that is not a valid header is not constrained by
             the property, so it cannot break the correspondence;
-  setter    Grid.data setter (own dtype, with and without finite integer mindata/maxdata) against `setData`;
+  setter    Grid.data setter (own dtype, with and without finite integer mindata/maxdata) against `setData`; float grids
+            with mindata / maxdata set through the setters (finite, +-inf, NaN bounds; never a zero bound), the setter
+            rejected for mindata > maxdata keeping the new bound, against `setMin / setMax / clipWord` (`run`, `setdata`);
   dict      to_dict (dtype string, no-data text canonicalised) and from_dict of the REAL dictionary against
-            `toDict/fromDict`;  np.dtype(str) and the pixel-type regex on generated strings against the tables;
+            `toDict/fromDict`; from_dict with optional keys removed (defaults of Grid.__init__), name / ncols removed
+            (KeyError), the no-data value given as a number instead of text, against `fromDictP`;  np.dtype(str) and the pixel-type regex on generated strings against the tables;
   externals str()/float()/dtype() of float16 (all 65536 words in the thorough tier), float32, float64 scalars: the facts
             the theorems take as hypotheses (IOok, NodataPrintable), checked directly;
   clone     clone(), clone(own dtype), clone(other dtype) against `clone/cloneAs`, then random interleavings of item
             writes (Grid.__setitem__ and through the array the getter returns), fill and data rebinding on original
             and clone against the array-store model (`Store.clone / cloneMap`), np.shares_memory after every step;
             the flow-direction grid held by a Catchment;
-  clip      Grid.clip on boxes with both corners inside the extent against `clip` (bit-equal corner, data, parent):
+  clip      Grid.clip on boxes with both corners inside the extent against `clip` (bit-equal corner, data, parent; corners
+            given in the wrong order - outside the property - raise or give an empty grid in both):
             free boxes and lattice-aligned ones (decimal cell sizes 0.1, 0.05, 0.025, ...; corners ON cell edges, on
             centres, on quarters, and one ulp either side);
   histories a raster of either byte order is loaded, (edited,) saved again to a new path and loaded once more, all dtypes;
@@ -34,7 +38,18 @@ Correspondence (real code vs compiled model driver, every observable the propert
             comment, corner, cell size, no-data) -> save again to the same path -> load (`edits`, `save`, `load`); edit of the
             array given to the setter; load -> edit -> to_dict -> from_dict, dictionary edited by the caller -> to_dict again,
             same files loaded again; clone of a clone with writes on any of the three (`store3`); clip of a clip, parent
-            edited between clips, clip edited; catchment exported, export edited by the caller, re-delineated, exported again;
+            edited between clips, clip edited; catchment exported, export edited by the caller, re-delineated (failing delineations -
+            outlet outside the grid, buffer too small - in between: areas reset, to_dict raises), exported again (`crun`);
+  machine   every public mutator on ONE object, accepted or REJECTED, one `run` request per call (state before, call, state
+            after, error class): item writes with any python index (negative, out of range), fill / no-data / mindata /
+            maxdata with python ints in and out of range, floats (NaN, inf, fractions), texts (" 12 ", "abc", "1e3"), dtype
+            scalars; data assignments of another shape (one more row / column, transposed, 1-d, 0-d, 3-d); Grid.load on files
+            of the right and of a wrong size in either byte order; grid[idx] read back (`getitem`). After every rejected call
+            and at the end the object must still survive clone / dictionary / save + load (oracle `still_a_grid`); the same
+            rejected assignments inside the clone-independence histories (`store`, `storeas`, `store3`) and between two clips;
+  files     save(dir/name) for names ending with ".bil", with "bil" only (xbil, .bil, a.Tbil), or with neither, then
+            from_header / from_zip on the name, its .hdr sibling, Path.stem + ".hdr", the bare stem: files written, files
+            found, grid loaded, against `saveFS / fromHeaderFS / fromZipFS`;
   catchment Catchment.to_dict / from_dict (directly and through json) after a real delineation, with and without inlets:
             random flow direction grids, and routed ones (spanning tree to the outlet around interior closed depressions)
             whose area encloses one or several holes, with inlets next to the holes; the falsy values are generated
@@ -75,7 +90,8 @@ FLOAT_KEYS = {"XLLCORNER", "YLLCORNER", "CELLSIZE"}
 ERRCLASS = {"malformedLine": {"IndexError"}, "badByteorder": {"ValueError"}, "xdimYdim": {"ValueError"},
             "wrongCount": {"ValueError"}, "badShape": {"ValueError"}, "badDtype": {"TypeError"},
             "missingDims": {"TypeError"}, "missingKey": {"KeyError"}, "badNodata": {"OverflowError", "ValueError"},
-            "pixelUnrecognised": {"ValueError"}, "notDelineated": {"ValueError"}}
+            "pixelUnrecognised": {"ValueError"}, "notDelineated": {"ValueError"}, "badIndex": {"IndexError"},
+            "badBounds": {"ValueError"}, "delineationFailed": {"ValueError"}}
 
 
 # ----------------------------------------------------------------------------- protocol helpers
@@ -167,10 +183,13 @@ def parse_parent(pk, pv):
 
 
 def bound_tok(b, t):
-    if isinstance(b, float) and not np.isfinite(b):
-        return "-"
-    if not np.isfinite(float(b)):
-        return "-"
+    """mindata / maxdata as the model stores them: `-` for the python floats -inf / +inf of __init__ (no bound), the integer
+    for a bound of an integer grid, the bit pattern of the scalar for a bound of a float grid"""
+    t = np.dtype(t)
+    if type(b) is float:
+        return "-" if not np.isfinite(b) else str(word_of(b, t) if t.kind == "f" else int(b))
+    if t.kind == "f":
+        return str(word_of(b, t))
     return str(int(b))
 
 
@@ -182,9 +201,11 @@ def grid_toks(g, data=None):
                      bound_tok(g._mindata, t), bound_tok(g._maxdata, t), fmt_mat(data), parent_toks(parent_of(g))])
 
 
-def obs_real(g):
-    """observables of a real grid, in the shape obs_model returns"""
+def obs_real(g, bounds=False):
+    """observables of a real grid, in the shape obs_model returns (`bounds`: mindata / maxdata too)"""
     t = np.dtype(g.dtype)
+    if bounds:
+        return {**obs_real(g), "bounds": [bound_tok(g._mindata, t), bound_tok(g._maxdata, t)]}
     nod = word_of(g.nodata, t) if type(g.nodata) is t.type else ("wrongtype", repr(g.nodata))
     if isinstance(nod, int) and is_nan_word(nod, t):
         nod = "nan"
@@ -202,7 +223,7 @@ def obs_model(toks):
     if is_nan_word(nod, t):
         nod = "nan"
     return {"name": dec(name), "comment": dec(comment), "nrows": int(nrows), "ncols": int(ncols), "xll": xll, "yll": yll,
-            "csz": csz, "dtype": kind + nbytes, "nodata": nod, "data": parse_mat(data), "parent": sorted((k, model_pval_value(v)) for k, v in parse_parent(pk, pv))}
+            "csz": csz, "dtype": kind + nbytes, "nodata": nod, "data": parse_mat(data), "bounds": [lo, hi], "parent": sorted((k, model_pval_value(v)) for k, v in parse_parent(pk, pv))}
 
 
 def diff_obs(a, b, skip=()):
@@ -294,6 +315,15 @@ def exc_class(e):
     return type(e).__name__
 
 
+def exc_chain(e):
+    """names of the exception's classes up to Exception, joined by | (a subclass of ValueError is a ValueError)"""
+    return "|".join(c.__name__ for c in type(e).__mro__ if c not in (Exception, BaseException, object))
+
+
+def class_matches(names, allowed):
+    return any(n in allowed for n in str(names).split("|"))
+
+
 # ----------------------------------------------------------------------------- oracle helpers
 def same_value(a, b):
     return bool(a == b) or bool(a != a and b != b)
@@ -344,9 +374,13 @@ def body(ctx):
     from hydrodiy.gis.grid import Grid, Catchment, FLOWDIRCODE
     rng = ctx.rng
     reqs, checks = [], []          # model requests and what to compare the replies with
+    outside_diffs = []             # calls outside the property's quantifier (probes of theorem hypotheses): reported, never an alarm
     work = C.BUILD / f"c13-work-{ctx.seed}-{ctx.tier}-{os.getpid()}"   # per process: two runs of this check may overlap
     shutil.rmtree(work, ignore_errors=True)
     work.mkdir(parents=True)
+
+    def dot(sx):
+        return ".".join(["x"] + [str(ord(c)) for c in sx])
 
     def escaped(e):
         ctx.disagree(f"C13: unexpected {type(e).__name__} while exercising or observing the real code",
@@ -433,6 +467,38 @@ def body(ctx):
 
     def load_request(defname, header_text, data_bytes):
         return f"load {enc(defname)} {enc(header_text)} " + ("-" if data_bytes is None else "h" + data_bytes.hex())
+
+    def random_edit(g, t, nr, nc):
+        """one admissible edit applied to the real grid; returns its token for the model"""
+        k = rng.random()
+        w = gen_words(rng, t, 1)[0]
+        sc = np.array([w], dtype="u%d" % t.itemsize).view(t)[0]
+        if k < 0.2:
+            idx = rng.randrange(nr * nc)
+            g[idx] = sc
+            return f"i:{idx}:{w}"
+        if k < 0.3:
+            i, j = rng.randrange(nr), rng.randrange(nc)
+            g.data[i, j] = sc                                  # through the array the getter returns
+            return f"i:{i * nc + j}:{w}"
+        if k < 0.4:
+            g.fill(sc)
+            return f"f:{w}"
+        if k < 0.55:
+            nv = np.array(gen_words(rng, t, nr * nc), dtype="u%d" % t.itemsize).view(t).reshape(nr, nc)   # equal-size re-assignment
+            g.data = nv
+            return f"d:{fmt_mat(nv)}"
+        if k < 0.65:
+            g.name = gen_text(rng)
+            return "n:" + dot(g.name)
+        if k < 0.75:
+            g.comment = gen_text(rng, 30)
+            return "c:" + dot(g.comment)
+        if k < 0.88:
+            g.xllcorner, g.yllcorner, g.cellsize = np.float64(gen_float(rng)), np.float64(gen_float(rng)), np.float64(gen_float(rng))
+            return f"g:{rawhex(g.xllcorner)}:{rawhex(g.yllcorner)}:{rawhex(g.cellsize)}"
+        g.nodata = sc
+        return f"v:{w}"
 
     # ======================================================================= (1) setter, save, load
     def saveload_case(g, vals, nodw, tname, shape, it, with_parent):
@@ -714,6 +780,58 @@ def body(ctx):
         except Exception as e:  # noqa  (nothing unexpected may escape: it becomes a correspondence disagreement)
             escaped(e)
 
+    # ---- (2b) float grids with mindata / maxdata (outside the property's quantifier, which has the default infinite bounds;
+    # the code path `_clipdata` takes then IS the one of the property): bounds set through the setters (a rejected setter,
+    # mindata > maxdata, keeps the new bound), then the data setter. Oracle: a value that is NaN or strictly inside the finite
+    # bounds is bit-identical. A float bound is never a zero (which zero np.maximum returns on a tie is platform dependent).
+    for rep in range(ctx.scale(150, 1500)):
+        try:
+            tname = rng.choice(DTYPES[8:])
+            t = np.dtype(tname)
+            shape = gen_shape(ctx, rng)
+            g, vals, nodw = make_grid(Grid, rng, tname, shape, name="b", comment="")
+            g.data = vals
+            case = {"op": "setdata/float_bounds", "dtype": tname, "shape": list(shape), "bounds": []}
+            limits = rep < 12      # the excluded point of clipWord_id (theorem clipWord_inf_needs_infinite_bounds): finfo.min / finfo.max
+            for kb in range(2 if limits else rng.randint(1, 3)):
+                while True:
+                    bw = rng.choice(special_words(t) + [rng.getrandbits(8 * t.itemsize) for _ in range(4)])
+                    bsc = np.array([bw], dtype="u%d" % t.itemsize).view(t)[0]
+                    if bsc != 0:
+                        break
+                which = rng.choice("mM")
+                if limits:
+                    which = "mM"[kb]
+                    bsc = t.type(np.finfo(t).min if kb == 0 else np.finfo(t).max)
+                    bw = word_of(bsc, t)
+                toks0 = grid_toks(g)
+                exc = None
+                try:
+                    if which == "m":
+                        g.mindata = bsc
+                    else:
+                        g.maxdata = bsc
+                except ValueError as e:
+                    exc = exc_chain(e)
+                case["bounds"] = case["bounds"] + [f"{which}:w:{bw}"]
+                ask(f"run {toks0} {which}:w:{bw}", "run", (exc, obs_real(g, bounds=True)), case)
+            nv = np.array(gen_words(rng, t, shape[0] * shape[1]), dtype="u%d" % t.itemsize).view(t).reshape(shape)
+            if limits:
+                nv.flat[0] = np.inf
+                nv.flat[-1] = -np.inf if nv.size > 1 else np.inf
+            gt0 = grid_toks(g)
+            lo, hi = g._mindata, g._maxdata
+            g.data = nv
+            ask(f"setdata {gt0} {fmt_mat(nv)}", "grid", obs_real(g), case)
+            with np.errstate(all="ignore"):
+                inside = np.isnan(nv) | ((~np.isfinite(lo) | (nv > lo)) & (~np.isfinite(hi) | (nv < hi)))
+            if not np.array_equal(uview(nv)[inside], uview(g.data)[inside]):
+                ctx.finding(f"setter/float_bounds/{data_class(t, nv)}", "a float value strictly inside [mindata, maxdata] (or NaN) was changed by the data setter",
+                            {**case, "lo": repr(lo), "hi": repr(hi)})
+            ctx.count(("fbounded", tname, tuple(case["bounds"]), tuple(int(v) for v in uview(nv).flat[:6])), True, "setter/float_bounds")
+        except Exception as e:  # noqa  (nothing unexpected may escape: it becomes a correspondence disagreement)
+            escaped(e)
+
     # ======================================================================= (3) foreign and malformed headers
     def foreign_header(kind, t, nr, nc, words):
         """returns header text, data bytes (or None), the byte order, the expected meta"""
@@ -789,6 +907,23 @@ def body(ctx):
             if with_data and np.dtype(g2.dtype) == t:
                 check_bits(ctx, f"load/byteorder_{bo}/data" if bo == "M" else "load/foreign/data",
                            "a raster is not decoded to the values its file holds", arr, g2.data, case)
+            # closure (theorems loaded_grid_is_grid, history_from_files): a grid loaded from a FOREIGN raster is a grid like any
+            # other - (edited,) saved by Grid.save and loaded again it is reproduced
+            if with_data and np.dtype(g2.dtype) == t and rep % 3 == 0:
+                cF = {**case, "op": "history/foreign_save_load"}
+                es = [random_edit(g2, t, nr, nc) for _ in range(rng.randint(0, 2))]
+                pF = work / "foreign_resaved.bil"
+                try:
+                    g2.save(pF)
+                    g7 = Grid.from_header(pF)
+                except Exception as e:  # noqa
+                    ctx.finding("history/foreign_save_load/raises", "a grid loaded from a foreign raster cannot be saved and loaded again",
+                                {**cF, "edits": es, "error": f"{exc_class(e)}: {e}"[:200]})
+                else:
+                    check_meta(ctx, "history/foreign_save_load", g2, g7, {**cF, "edits": es})
+                    if np.dtype(g7.dtype) == t:
+                        check_bits(ctx, "history/foreign_save_load/data", "a grid loaded from a foreign raster, saved and loaded again has other cell values",
+                                   g2.data, g7.data, {**cF, "edits": es})
             ctx.count(("foreign", tname, kind, bo, nr, nc, text), True, f"foreign/{kind}/{bo}")
         except Exception as e:  # noqa  (nothing unexpected may escape: it becomes a correspondence disagreement)
             escaped(e)
@@ -937,6 +1072,39 @@ def body(ctx):
                 if dreq is not None:
                     ask(dreq, "grid", obs_real(g2), {**case, "dict": dshow})
                 check_meta(ctx, "dict", g, g2, {**case, "dict": dshow})
+                # from_dict on a dictionary with optional keys missing (defaults of Grid.__init__; KeyError for name / ncols),
+                # the no-data value given as text or as a number
+                try:
+                    dp = dict(d)
+                    ndraw = dp["nodata"]
+                    ndtok = "t:" + dot(str(ndraw))
+                    if rng.random() < 0.3:
+                        if t.kind in "iu":
+                            dp["nodata"] = int(ndraw)
+                            ndtok = f"i:{dp['nodata']}"
+                        elif float(ndraw) == float(ndraw):
+                            dp["nodata"] = float(ndraw)
+                            ndtok = f"x:{rawhex(dp['nodata'])}"
+                    drop = [kk for kk in ["name", "ncols", "nrows", "cellsize", "xllcorner", "yllcorner", "dtype", "nodata", "comment"]
+                            if rng.random() < (0.05 if kk in ("name", "ncols") else 0.35)]
+                    for kk in drop:
+                        del dp[kk]
+                    ftoks = [enc(str(dp["name"])) if "name" in dp else "-", str(int(dp["ncols"])) if "ncols" in dp else "-",
+                             str(int(dp["nrows"])) if "nrows" in dp else "-", rawhex(dp["cellsize"]) if "cellsize" in dp else "-",
+                             rawhex(dp["xllcorner"]) if "xllcorner" in dp else "-", rawhex(dp["yllcorner"]) if "yllcorner" in dp else "-",
+                             enc(np.dtype(dp["dtype"]).str) if "dtype" in dp else "-", ndtok if "nodata" in dp else "-",
+                             enc(str(dp["comment"])) if "comment" in dp else "-"]
+                    cP = {**case, "op": "dict/optional_keys", "dropped": drop, "nodata_as": ndtok[0],
+                          "outside": bool(drop) or ndtok[0] != "t"}      # only the complete dictionary is the property's
+                    try:
+                        gp = Grid.from_dict(dp)
+                    except Exception as e:  # noqa
+                        ask("fromdictp " + " ".join(ftoks), "load_err", exc_chain(e), cP)
+                    else:
+                        ask("fromdictp " + " ".join(ftoks), "grid", obs_real(gp), cP)
+                    ctx.count(("dictp", tname, tuple(drop), ndtok), True, "dict/optional_keys/" + ("keyerror" if ("name" in drop or "ncols" in drop) else "defaults"))
+                except Exception as e:  # noqa
+                    escaped(e)
                 # clone
                 g3 = g.clone()
                 ask("clone " + grid_toks(g), "grid", obs_real(g3), {**case, "op": "clone"})
@@ -1075,10 +1243,24 @@ def body(ctx):
                 elif k < 0.7:
                     obj[who].fill(sc)
                     ops.append(f"{who}:f:{w}")
-                else:
+                elif k < 0.9:
                     nv = np.array(gen_words(rng, tw, nr * nc), dtype="u%d" % tw.itemsize).view(tw).reshape(nr, nc)
                     obj[who].data = nv
                     ops.append(f"{who}:d:{fmt_mat(nv)}")
+                else:
+                    # a REJECTED call: an array of another shape; nothing may be rebound or written, on either object
+                    shp = rng.choice([(nr + 1, nc), (nr, nc + 1), (nc + 1, nr), (1, nr * nc + 1)])
+                    nv = np.array(gen_words(rng, tw, shp[0] * shp[1]), dtype="u%d" % tw.itemsize).view(tw).reshape(shp)
+                    try:
+                        obj[who].data = nv
+                    except ValueError:
+                        pass
+                    ops.append(f"{who}:d:{fmt_mat(nv)}")
+                    if not broken and (obj[who].data.tobytes() != exp[who].tobytes() or obj[who].data.shape != (nr, nc)):
+                        broken = True
+                        ctx.finding(f"clone/rejected_assignment_stored/{mode}",
+                                    "a data assignment of the wrong shape, rejected with ValueError, changed the cells the grid holds",
+                                    {**case, "ops": list(ops)})
                 if not broken and obj[other].data.tobytes() != exp[other].tobytes():
                     broken = True
                     ctx.finding(f"clone/not_independent/{mode}",
@@ -1170,6 +1352,24 @@ def body(ctx):
             fx = lambda x: (F(x) - F(xll)) / F(csz)  # noqa
             fy = lambda y: (F(y) - F(yll)) / F(csz)  # noqa
             inside = all(0 <= fx(x) < nc for x in (x0, x1)) and all(0 <= fy(y) < nr for y in (y0, y1))
+            if inside and rng.random() < 0.06:
+                # OUTSIDE the property (probe of the hypotheses x0 <= x1, y0 <= y1 of the clip theorems): corners given in the
+                # wrong order. The code raises (negative dimension) or returns an empty grid; the model must do the same.
+                if rng.random() < 0.5:
+                    x0, x1 = x1, x0
+                else:
+                    y0, y1 = y1, y0
+                cS = {"op": "clip/swapped_corners", "outside": True, "dtype": tname, "shape": [nr, nc], "box": [repr(x0), repr(y0), repr(x1), repr(y1)]}
+                reqS = f"clip {rawhex(x0)} {rawhex(y0)} {rawhex(x1)} {rawhex(y1)} " + grid_toks(g)
+                try:
+                    clS = g.clip(x0, y0, x1, y1)
+                except Exception as e:  # noqa
+                    ask(reqS, "load_err", exc_chain(e), cS)
+                    ctx.count(("clipS", rep), True, "clip/swapped_corners/raises")
+                else:
+                    ask(reqS, "grid_nocomment", obs_real(clS), cS)
+                    ctx.count(("clipS", rep), True, "clip/swapped_corners/" + ("empty" if clS.data.size == 0 else "same_cell"))
+                continue
             if not inside or x1 < x0 or y1 < y0:
                 ctx.count(("clip", rep), False, "clip/skipped_outside")
                 continue
@@ -1309,41 +1509,6 @@ def body(ctx):
             escaped(e)
 
     # ======================================================================= (8) histories on ONE object
-    def dot(sx):
-        return ".".join(["x"] + [str(ord(c)) for c in sx])
-
-    def random_edit(g, t, nr, nc):
-        """one admissible edit applied to the real grid; returns its token for the model"""
-        k = rng.random()
-        w = gen_words(rng, t, 1)[0]
-        sc = np.array([w], dtype="u%d" % t.itemsize).view(t)[0]
-        if k < 0.2:
-            idx = rng.randrange(nr * nc)
-            g[idx] = sc
-            return f"i:{idx}:{w}"
-        if k < 0.3:
-            i, j = rng.randrange(nr), rng.randrange(nc)
-            g.data[i, j] = sc                                  # through the array the getter returns
-            return f"i:{i * nc + j}:{w}"
-        if k < 0.4:
-            g.fill(sc)
-            return f"f:{w}"
-        if k < 0.55:
-            nv = np.array(gen_words(rng, t, nr * nc), dtype="u%d" % t.itemsize).view(t).reshape(nr, nc)   # equal-size re-assignment
-            g.data = nv
-            return f"d:{fmt_mat(nv)}"
-        if k < 0.65:
-            g.name = gen_text(rng)
-            return "n:" + dot(g.name)
-        if k < 0.75:
-            g.comment = gen_text(rng, 30)
-            return "c:" + dot(g.comment)
-        if k < 0.88:
-            g.xllcorner, g.yllcorner, g.cellsize = np.float64(gen_float(rng)), np.float64(gen_float(rng)), np.float64(gen_float(rng))
-            return f"g:{rawhex(g.xllcorner)}:{rawhex(g.yllcorner)}:{rawhex(g.cellsize)}"
-        g.nodata = sc
-        return f"v:{w}"
-
     # ---- (8a) save -> edit -> save again to the same path -> load; load -> edit -> to_dict -> from_dict; to_dict twice
     for rep in range(ctx.scale(150, 1500)):
         try:
@@ -1444,9 +1609,17 @@ def body(ctx):
                 elif k < 0.6:
                     obj[who].fill(sc)
                     ops.append(f"{who}:f:{w}")
-                else:
+                elif k < 0.9:
                     nv = np.array(gen_words(rng, t, nr * nc), dtype="u%d" % t.itemsize).view(t).reshape(nr, nc)
                     obj[who].data = nv
+                    ops.append(f"{who}:d:{fmt_mat(nv)}")
+                else:
+                    shp = rng.choice([(nr + 1, nc), (nr, nc + 1), (nc + 1, nr)])       # rejected: wrong shape
+                    nv = np.array(gen_words(rng, t, shp[0] * shp[1]), dtype="u%d" % t.itemsize).view(t).reshape(shp)
+                    try:
+                        obj[who].data = nv
+                    except ValueError:
+                        pass
                     ops.append(f"{who}:d:{fmt_mat(nv)}")
                 for o in "ABC":
                     if o != who and not broken and obj[o].data.tobytes() != exp[o].tobytes():
@@ -1504,6 +1677,13 @@ def body(ctx):
             es = [e for e in es if e[0] in "ifd"] or [random_edit(g, t, nr, nc)]
             if cl1.data.tobytes() != s1.tobytes() or cl2.data.tobytes() != s2.tobytes():
                 ctx.finding("history/clip_aliases_parent", "editing the parent grid changed a grid clipped from it before", {**case, "edits": es})
+            if rng.random() < 0.5:
+                # a REJECTED call on the parent (wrong shape): the next clip still shows the parent's cells
+                shp = rng.choice([(nr + 1, nc), (nr, nc + 1), (nc + 1, nr + 1)])
+                try:
+                    g.data = np.array(gen_words(rng, t, shp[0] * shp[1]), dtype="u%d" % t.itemsize).view(t).reshape(shp)
+                except ValueError:
+                    es = es + ["rejected data assignment"]
             if rawhex(g.cellsize) == rawhex(csz) and rawhex(g.xllcorner) == rawhex(xll) and rawhex(g.yllcorner) == rawhex(yll):
                 cl3 = g.clip(*box1)
                 ask("clip " + " ".join(rawhex(v) for v in box1) + " " + grid_toks(g), "grid_nocomment", obs_real(cl3), {**case, "edits": es})
@@ -1526,13 +1706,31 @@ def body(ctx):
             ca = Catchment("hist", fd)
             prev = None
             nok = 0
-            for step in range(rng.randint(2, 3)):
+            cops = []
+            for step in range(rng.randint(2, 4)):
                 o = outlet if step == 0 else (0 if rng.random() < 0.2 else rng.randrange(nr * nc))
                 inl = None if rng.random() < 0.5 else (rng.sample(ring, min(len(ring), 2)) if ring else None)
+                # a failing call now and then (outlet outside the grid, or a buffer too small): ValueError, areas reset
+                fail = rng.random() < 0.25
+                if fail and rng.random() < 0.5:
+                    o = rng.choice([nr * nc, -1, nr * nc + 7])
                 try:
-                    ca.delineate_area(o, inl)
+                    if fail and 0 <= o < nr * nc:
+                        ca.delineate_area(o, inl, nval=1)
+                    else:
+                        ca.delineate_area(o, inl)
                 except ValueError:
-                    break
+                    cops.append(f"{o};{ilist(inl)};!;!")
+                    # after a failed call the catchment cannot be exported (both in the code and in the model)
+                    try:
+                        ca.to_dict()
+                        exported = True
+                    except ValueError:
+                        exported = False
+                    ask(" ".join(["crun", enc(ca.name), grid_toks(ca.flowdir)] + cops), "plain",
+                        "err notDelineated" if not exported else "exported", {"op": "history/catchment_failed", "shape": [nr, nc], "ops": list(cops)})
+                    continue
+                cops.append(f"{o};{ilist(inl)};{ilist([int(v) for v in ca.idxcells_area])};{ilist([int(v) for v in ca.idxcells_area_filled])}")
                 nok += 1
                 case = {"op": "history/catchment", "shape": [nr, nc], "step": step, "outlet": o, "inlets": inl, "flowdir": fddata.tolist()}
                 d1 = ca.to_dict()
@@ -1551,7 +1749,10 @@ def body(ctx):
                 if json.dumps(d2, default=lambda x: x.item() if isinstance(x, np.generic) else x.tolist(), sort_keys=True) != shown:
                     ctx.finding("history/catchment_dict_aliases_state", "editing the dictionary returned by Catchment.to_dict changed the next export", case)
                 cb = Catchment.from_dict(d2)
-                judge_catch(ca, cb, case, "dict-after-history", nr, nc)
+                got_in, a1, f1 = judge_catch(ca, cb, case, "dict-after-history", nr, nc)
+                oc = getattr(cb, "_idxcell_outlet", None)
+                ask(" ".join(["crun", enc(ca.name), grid_toks(ca.flowdir)] + cops), "catch",
+                    ((cb.name, None if oc is None else int(oc), got_in, a1, f1), obs_real(cb.flowdir)), {**case, "ops": list(cops)})
                 if prev is not None:
                     pcb, psnap = prev
                     now = (snap_outlet(pcb), None if pcb.idxinlets is None else [int(v) for v in pcb.idxinlets],
@@ -1564,6 +1765,226 @@ def body(ctx):
         except Exception as e:  # noqa
             escaped(e)
 
+    # ---- (8e) state machine: every public mutator, accepted or REJECTED, on one object; after a rejected call the
+    # object is the grid it was (model: `step`), and it still survives clone / dictionary / save + load
+    def scalar_of(w, t):
+        return np.array([w], dtype="u%d" % t.itemsize).view(t)[0]
+
+    def offered_value(t, bound=False):
+        """a value offered to `dtype(value)` (no-data, fill, mindata, maxdata): (python object, token)"""
+        k = rng.random()
+        if k < 0.35:
+            while True:
+                w = gen_words(rng, t, 1)[0]
+                sc = scalar_of(w, t)
+                # a float bound is never a zero (which zero np.maximum returns on a tie is platform dependent)
+                if not (bound and t.kind == "f" and sc == 0):
+                    return sc, f"w:{w}"
+        if k < 0.65:
+            if t.kind in "iu":
+                info = np.iinfo(t)
+                n = rng.choice([int(info.min), int(info.max), 1, -1, 7, rng.randint(int(info.min), int(info.max)),
+                                int(info.max) + 1, int(info.min) - 1, 2 ** 64, -2 ** 63 - 1])
+            else:
+                n = rng.choice([1, -1, 7, 65504, 65520, 2 ** 24 + 1, 2 ** 53 + 1, -2 ** 63, 10 ** 40, rng.randint(-10 ** 6, 10 ** 6)])
+            if bound and n == 0:
+                n = 1
+            return n, f"i:{n}"
+        if k < 0.8:
+            x = rng.choice([3.7, -0.5, -1.5, 1e10, 1e30, float("nan"), float("inf"), float("-inf"), 127.9, 255.5, 65535.99,
+                            9.3e18, 1.8e19, -9.3e18, 1e-8, 70000.0, 3.5e38, gen_float(rng)])
+            if bound and x == 0:
+                x = 1.0
+            return x, f"x:{rawhex(x)}"
+        txt = rng.choice(["12", " 12 ", "abc", "1.5", "nan", "-inf", "1e3", "-7", "+3", "", "300", "-129", "70000", "1e400", "0x10",
+                          str(rng.randint(-2 ** 63, 2 ** 64))])
+        return txt, "t:" + dot(txt)
+
+    def random_op(g, t, nr, nc, with_bounds):
+        """one call on the real grid, accepted or rejected: (token for the model, name of the exception raised or None)"""
+        k = rng.random()
+        try:
+            if k < 0.3:
+                return random_edit(g, t, nr, nc), None
+            if k < 0.42:
+                idx = rng.choice([rng.randrange(nr * nc), -1, -nr * nc, nr * nc, -nr * nc - 1, rng.randint(-2 * nr * nc, 2 * nr * nc), 10 ** 6])
+                w = gen_words(rng, t, 1)[0]
+                tok = f"I:{idx}:{w}"
+                g[idx] = scalar_of(w, t)
+                return tok, None
+            if k < 0.5:
+                val, vt = offered_value(t)
+                tok = "F:" + vt
+                g.fill(val)
+                return tok, None
+            if k < 0.54:
+                tok = "D3"
+                g.data = np.zeros(rng.choice([(nr, nc, 1), (1, nr, nc), (nr, nc, 2)]), dtype=t)
+                return tok, None
+            if k < 0.72:
+                # an array of another shape (the setter applies np.atleast_2d first)
+                shp = rng.choice([(nr + 1, nc), (nr, nc + 1), (nc, nr), (nr * nc,), (), (max(nr - 1, 1), nc), (nr, max(nc - 1, 1)),
+                                  (1, nr * nc), (nr * nc, 1), (2 * nr, nc), (nr + 1, nc + 1)])
+                n = int(np.prod(shp)) if shp != () else 1
+                nv = np.array(gen_words(rng, t, n), dtype="u%d" % t.itemsize).view(t).reshape(shp)
+                tok = "d:" + fmt_mat(np.atleast_2d(nv))
+                g.data = nv
+                return tok, None
+            if k < 0.8:
+                val, vt = offered_value(t)
+                tok = "V:" + vt
+                g.nodata = val
+                return tok, None
+            if k < 0.9 and with_bounds:
+                val, vt = offered_value(t, bound=True)
+                if rng.random() < 0.5:
+                    tok = "m:" + vt
+                    g.mindata = val
+                else:
+                    tok = "M:" + vt
+                    g.maxdata = val
+                return tok, None
+            # Grid.load on a file of the right or of a wrong size, either byte order
+            n = rng.choice([nr * nc, nr * nc, nr * nc, nr * nc + 1, max(nr * nc - 1, 0), nr * nc + nc, 0])
+            raw = bytes(rng.getrandbits(8) for _ in range(n * t.itemsize + rng.choice([0, 0, 0, 1 if t.itemsize > 1 else 0])))
+            bo = rng.choice("IM")
+            pl = work / "direct_load.bil"
+            pl.write_bytes(raw)
+            tok = f"L:{bo}:h{raw.hex()}"
+            if rng.random() < 0.5:
+                g.load(str(pl), ">" if bo == "M" else "<")
+            else:
+                with open(pl, "rb") as fdl:
+                    g.load(fdl, ">" if bo == "M" else "<")
+            return tok, None
+        except (ValueError, OverflowError, IndexError, TypeError) as e:
+            return tok, exc_chain(e)
+
+    def still_a_grid(g, t, case, sig):
+        """the property on the CURRENT object: clone, dictionary, save + load"""
+        try:
+            cl = g.clone()
+            check_meta(ctx, f"{sig}/clone", g, cl, case)
+            check_bits(ctx, f"{sig}/clone/data", "cell values of a clone are not bit-identical", g.data, cl.data, case)
+            g2 = Grid.from_dict(g.to_dict())
+            check_meta(ctx, f"{sig}/dict", g, g2, case)
+            pz = work / "machine.bil"
+            g.save(pz)
+            g3 = Grid.from_header(pz)
+            check_meta(ctx, f"{sig}/saveload", g, g3, case)
+            if np.dtype(g3.dtype) == t:
+                check_bits(ctx, f"{sig}/saveload/data", "cell values are not bit-identical after save/load", g.data, g3.data, case)
+        except Exception as e:  # noqa
+            ctx.finding(f"{sig}/raises", "clone / dictionary / save + load raises on a grid reached through public calls only",
+                        {**case, "error": f"{exc_class(e)}: {e}"[:200]})
+
+    for rep in range(ctx.scale(250, 2500)):
+        try:
+            tname = DTYPES[rep % len(DTYPES)]
+            t = np.dtype(tname)
+            nr, nc = gen_shape(ctx, rng)
+            if nr * nc > 36:
+                nr, nc = 3, 4
+            g, vals, nodw = make_grid(Grid, rng, tname, (nr, nc))
+            g.data = vals
+            with_bounds = rng.random() < 0.3
+            case = {"op": "machine", "dtype": tname, "shape": [nr, nc], "ops": []}
+            nrej = 0
+            for stepno in range(rng.randint(2, 7)):
+                toks0 = grid_toks(g)
+                tok, exc = random_op(g, t, nr, nc, with_bounds)
+                case["ops"] = case["ops"] + [tok if len(tok) < 200 else tok[:200] + "..."]
+                c2 = {**case, "step": stepno, "raised": exc}
+                ask(f"run {toks0} {tok}", "run", (exc, obs_real(g, bounds=True)), c2)
+                # the accessor: grid[idx] for an index inside or outside [-size, size)
+                ridx = rng.choice([rng.randrange(nr * nc), -1, -nr * nc, nr * nc, -nr * nc - 1, rng.randint(-2 * nr * nc, 2 * nr * nc)])
+                try:
+                    got = "ok %d" % word_of(g[ridx], t)
+                except IndexError:
+                    got = "err badIndex"
+                ask(f"getitem {ridx} " + grid_toks(g), "plain", got, {**c2, "op": "machine/getitem", "index": ridx})
+                if exc is not None:
+                    nrej += 1
+                    still_a_grid(g, t, c2, "history/rejected/" + tok.split(":")[0])
+            still_a_grid(g, t, case, "history/machine")
+            ctx.count(("machine", tname, nr, nc, tuple(case["ops"])), True, "history/machine/" + ("with_rejected" if nrej else "all_accepted")
+                      + ("/bounds" if with_bounds else ""))
+        except Exception as e:  # noqa
+            escaped(e)
+
+    # ======================================================================= (9) file names
+    # save(dir/name) for names that end with ".bil", with "bil" only, or with neither; then from_header / from_zip on the name,
+    # on its .hdr sibling, on Path.stem + ".hdr", on the bare stem: which files are written, which are found (model: saveFS,
+    # fromHeaderFS, fromZipFS). Oracle: a grid saved as <non-empty stem>.bil loads identical through either file name.
+    NAMES = ["g.bil", "a.b.bil", "a..bil", "My Grid.bil", ".bil", "xbil", "a.Tbil", "bil", "g.txt", "g.BIL", "g.bil ", "g.hdr",
+             "x.ybil", "..bil", "a.b.c.bil", "g", "g.", ".g.bil", "bil.bil", "hdr.bil", "a.hdr.bil"]
+    for rep in range(ctx.scale(120, 1000)):
+        try:
+            tname = DTYPES[rep % len(DTYPES)]
+            t = np.dtype(tname)
+            nr, nc = gen_shape(ctx, rng)
+            if nr * nc > 36:
+                nr, nc = 2, 3
+            g, vals, nodw = make_grid(Grid, rng, tname, (nr, nc))
+            g.data = vals
+            name = rng.choice(NAMES) if rng.random() < 0.7 else "".join(rng.choice("ab.Tbil hdr_") for _ in range(rng.randint(1, 9)))
+            if name in (".", "..") or name.strip() == "":
+                name = "g.bil"
+            dd = work / "d"
+            shutil.rmtree(dd, ignore_errors=True)
+            dd.mkdir()
+            case = {"op": "files", "dtype": tname, "shape": [nr, nc], "name": name}
+            try:
+                g.save(dd / name)
+                saved = True
+            except Exception:  # noqa
+                saved = False
+            written = sorted(f.name for f in dd.iterdir())
+            stem = Path(name).stem
+            probe = rng.choice([name, name[:-3] + "hdr", stem + ".hdr", stem, stem + ".bil"])
+            if probe in ("", ".", ".."):       # not a final path component (pathlib drops it)
+                probe = name
+            how = rng.choice(["hdr", "hdr", "zip"])
+            case.update({"probe": probe, "how": how, "written": written})
+            req = f"files {how} {enc(name)} {enc(probe)} " + grid_toks(g)
+            if not saved:
+                case["outside"] = True
+                ask(req, "plain", "err badFilename", case)
+                if written:
+                    outside_diffs.append({"what": "C13/files: a rejected save left files behind", "op": "files", "case": case})
+                ctx.count(("files", name), True, "files/rejected")
+                continue
+            try:
+                if how == "hdr":
+                    g2 = Grid.from_header(dd / probe)
+                else:
+                    zp = work / "files.zip"
+                    with zipfile.ZipFile(zp, "w") as z:
+                        for f in dd.iterdir():
+                            z.write(f, "d/" + f.name)
+                    g2 = Grid.from_zip(zp, "d/" + probe)
+                res = ("ok", obs_real(g2))
+            except Exception as e:  # noqa
+                g2 = None
+                res = ("err", exc_chain(e))
+            # the region the theorems claim: <non-empty stem>.bil through from_header (save_fromHeader_files); through from_zip,
+            # whose member names come from os.path.splitext, the stem must not consist of dots only (save_fromZip_files)
+            wellnamed = (name.endswith(".bil") and name != ".bil" and probe in (name, name[:-3] + "hdr")
+                         and (how == "hdr" or name[:-4].strip(".") != ""))
+            # file names the property does not speak of (no ".bil", probes of other names): differences are reported, not alarms
+            case["outside"] = not wellnamed
+            ask(req, "files", (written, res), case)
+            if wellnamed:
+                if g2 is None:
+                    ctx.finding("files/cannot_read_back", "a grid saved as <stem>.bil cannot be loaded through from_header / from_zip", {**case, "error": res[1]})
+                else:
+                    check_meta(ctx, "files", g, g2, case)
+                    if np.dtype(g2.dtype) == t:
+                        check_bits(ctx, f"files/data/{data_class(t, vals)}", "cell values are not bit-identical after save / load by file name", g.data, g2.data, case)
+            ctx.count(("files", name, probe, how, tname), True, "files/" + ("well_named" if wellnamed else "other_name") + "/" + res[0])
+        except Exception as e:  # noqa
+            escaped(e)
+
     # ======================================================================= correspondence
     malformed_diffs = []
 
@@ -1573,6 +1994,8 @@ def body(ctx):
             # constrained by the property: differences there are reported in the evidence, not as a broken correspondence
             if case.get("op") == "malformed":
                 malformed_diffs.append({"what": what, "kind": case.get("kind"), "header": case.get("header")})
+            elif case.get("outside"):
+                outside_diffs.append({"what": what, "op": case.get("op"), "case": {k: v for k, v in c.items() if k not in ("header",)}})
             else:
                 ctx.disagree(what, c)
         toks = rep.split(" ")
@@ -1614,18 +2037,53 @@ def body(ctx):
         elif kind == "load_err":
             if toks[0] != "err":
                 differ(f"{tag}: the code raises {impl}, the model loads", {**case, "model": rep[:200]})
-            elif impl not in ERRCLASS.get(toks[1], set()):
+            elif not class_matches(impl, ERRCLASS.get(toks[1], set())):
                 differ(f"{tag}: the code raises {impl}, the model reports {toks[1]}", case)
         elif kind in ("grid", "grid_nocomment", "grid_nonodata"):
             if toks[0] != "ok":
                 differ(f"{tag}: model fails ({rep}) where the code succeeds", case)
                 return
             model = obs_model(toks[1:])
+            if model["nrows"] == 0 or model["ncols"] == 0:
+                # an empty array (corners in the wrong order): its rows cannot be told apart in the line protocol
+                model["data"] = impl["data"] if not any(len(r) for r in impl["data"]) else model["data"]
             # the clip comment quotes the box with python's float printing (external, not constrained by the property)
             # clone(other dtype) keeps the no-data scalar of the old dtype (not an observable of the property)
             d = diff_obs(impl, model, skip={"grid_nocomment": ("comment",), "grid_nonodata": ("nodata",)}.get(kind, ()))
             if d:
                 differ(f"{tag}: grids differ in {d}", {**case, "impl": {k: impl[k] for k in d}, "model": {k: model[k] for k in d}})
+        elif kind == "files":
+            written, (st, real) = impl
+            if toks[0] != "saved":
+                differ(f"{tag}: the code saves, the model says {rep[:60]}", case)
+                return
+            mnames = sorted(dec(x).split("/", 1)[1] for x in toks[1][1:-1].split(";") if x)
+            if mnames != written:
+                differ(f"{tag}: files written differ", {**case, "model": mnames})
+            if st == "err":
+                if toks[2] != "err":      # which exception a missing file raises is not the property's business
+                    differ(f"{tag}: the code raises {real}, the model says {' '.join(toks[2:4])}", case)
+            elif toks[2] != "ok":
+                differ(f"{tag}: the code loads, the model says {' '.join(toks[2:4])}", case)
+            else:
+                model = obs_model(toks[3:])
+                for o in (real, model):
+                    for k in ("name", "comment"):
+                        o[k] = " ".join(str(o[k]).lower().split())
+                d = diff_obs(real, model)
+                if d:
+                    differ(f"{tag}: loaded grid differs in {d}", {**case, "impl": {k: real[k] for k in d}, "model": {k: model[k] for k in d}})
+        elif kind == "run":
+            # one call of the state machine: accepted / rejected alike, and the same state afterwards
+            exc, real = impl
+            flags = toks[1][1:-1].split(",")
+            model = obs_model(toks[2:])
+            if (exc is None) != (flags[-1] == "-") or (exc is not None and not class_matches(exc, ERRCLASS.get(flags[-1], set()))):
+                differ(f"{tag}: the call raised {exc} in the code, the model says {flags[-1]}", case)
+            d = diff_obs(real, model)
+            if d:
+                differ(f"{tag}: state after the call differs in {d}" + (" (call REJECTED)" if exc else ""),
+                       {**case, "impl": {k: real[k] for k in d}, "model": {k: model[k] for k in d}})
         elif kind == "todict":
             if toks[0] != "ok":
                 differ(f"{tag}: model fails", {**case, "model": rep})
@@ -1663,6 +2121,7 @@ def body(ctx):
                          {**case, "model": rep[:300], "trace": traceback.format_exc()[-600:]})
     shutil.rmtree(work, ignore_errors=True)
     ctx.extra["malformed_header_differences"] = {"count": len(malformed_diffs), "samples": malformed_diffs[:5]}
+    ctx.extra["outside_property_differences"] = {"count": len(outside_diffs), "samples": outside_diffs[:5]}
     ctx.extra["rule"] = __doc__.split("Cases:")[1].strip()
     ctx.assumptions += [
         "float printing and reading (str(np.float64), float()), conversions between float formats, ndarray.tofile / np.fromfile, "
